@@ -13,7 +13,7 @@ use std::fmt::Write as _;
 use syn::*;
 
 #[derive(Clone, Debug, PartialEq)]
-enum Ty { U8, U32, U64, I32, I64, Bool, W(usize), RMode, Class, F64U, F32U, DecDigits, N, Ord, OptOrd, Hasher, Arr(Box<Ty>, usize), Generic(String), Tuple(Vec<Ty>), Unit, Unknown }
+enum Ty { U8, U32, U64, I32, I64, Bool, W(usize), RMode, Class, F64U, F32U, DecDigits, N, Ord, OptOrd, Hasher, Arr(Box<Ty>, usize), Generic(String), Tuple(Vec<Ty>), Func(Vec<Ty>, Box<Ty>), Opt128, Unit, Unknown }
 
 impl Ty {
     fn lean(&self) -> String {
@@ -23,6 +23,8 @@ impl Ty {
             Ty::F64U => "F64U".into(), Ty::F32U => "F32U".into(), Ty::DecDigits => "DecDigits".into(), Ty::N => "Nat".into(), Ty::Ord => "Ordering".into(), Ty::OptOrd => "(Option Ordering)".into(),
             Ty::Hasher => "(List UInt8)".into(), Ty::Arr(t, _) => format!("(Array {})", t.lean()), Ty::Generic(g) => format!("{}'", g),
             Ty::Tuple(v) => format!("({})", v.iter().map(|t| t.lean()).collect::<Vec<_>>().join(" × ")),
+            Ty::Func(a, r) => format!("({} → Except String {})", a.iter().map(|t| t.lean()).collect::<Vec<_>>().join(" → "), r.lean()),
+            Ty::Opt128 => "(Option U128)".into(),
             Ty::Unit => "Unit".into(), Ty::Unknown => "_".into(),
         }
     }
@@ -74,6 +76,22 @@ fn ty_of_type(t: &Type) -> (Ty, bool) {
     match t {
         Type::Reference(r) => { let (ty, _) = ty_of_type(&r.elem); (ty, r.mutability.is_some()) }
         Type::Paren(p) => ty_of_type(&p.elem),
+        Type::TraitObject(to) => {
+            // `dyn Fn(A, B) -> R`: a function passed as an argument
+            for b in to.bounds.iter() {
+                if let TypeParamBound::Trait(tb) = b {
+                    let seg = tb.path.segments.last().unwrap();
+                    if seg.ident == "Fn" {
+                        if let PathArguments::Parenthesized(pa) = &seg.arguments {
+                            let args: Vec<Ty> = pa.inputs.iter().map(|t| ty_of_type(t).0).collect();
+                            let ret = match &pa.output { ReturnType::Default => Ty::Unit, ReturnType::Type(_, t) => ty_of_type(t).0 };
+                            if args.iter().all(|t| *t != Ty::Unknown) && ret != Ty::Unknown { return (Ty::Func(args, Box::new(ret)), false); }
+                        }
+                    }
+                }
+            }
+            (Ty::Unknown, false)
+        }
         Type::Array(a) => { let (t, _) = ty_of_type(&a.elem); match (t.is_int(), lit_usize(&a.len)) { (true, Some(n)) => (Ty::Arr(Box::new(t), n), false), _ => (Ty::Unknown, false) } }
         Type::Tuple(t) => { if t.elems.is_empty() { (Ty::Unit, false) } else { (Ty::Tuple(t.elems.iter().map(|e| ty_of_type(e).0).collect()), false) } }
         Type::Path(p) => {
@@ -84,7 +102,7 @@ fn ty_of_type(t: &Type) -> (Ty, bool) {
                 "BID_UINT128" | "d128" | "Self" => Ty::W(128), "Ordering" => Ty::Ord, "H" => Ty::Hasher,
                 "Option" => {
                     let inner = match &p.path.segments.last().unwrap().arguments { PathArguments::AngleBracketed(a) => a.args.first().and_then(|g| if let GenericArgument::Type(t) = g { Some(ty_of_type(t).0) } else { None }), _ => None };
-                    if inner == Some(Ty::Ord) { Ty::OptOrd } else { Ty::Unknown }
+                    if inner == Some(Ty::Ord) { Ty::OptOrd } else if inner == Some(Ty::W(128)) { Ty::Opt128 } else { Ty::Unknown }
                 } "BID_UINT192" => Ty::W(192), "BID_UINT256" => Ty::W(256),
                 "BID_UINT384" => Ty::W(384), "BID_UINT512" => Ty::W(512), "RoundingMode" => Ty::RMode, "ClassTypes" => Ty::Class,
                 "BID_UI64DOUBLE" | "f64" => Ty::F64U, "BID_UI32FLOAT" | "f32" => Ty::F32U, "DEC_DIGITS" => Ty::DecDigits,
@@ -124,13 +142,15 @@ struct Out { lines: Vec<String> }
 #[derive(Clone)]
 enum Tail { No, Ret, Into(Expr) }
 
-struct FnCtx<'a> { cx: &'a mut Ctx, name: String, outs: Vec<String>, ret: Ty, tmp: usize, pre: Vec<String>, loops: Vec<(Option<String>, Option<String>, Tail)> }
+struct FnCtx<'a> { cx: &'a mut Ctx, name: String, outs: Vec<String>, ret: Ty, tmp: usize, pre: Vec<String>, loops: Vec<(Option<String>, Option<String>, Tail)>, ext: bool }
 
 macro_rules! bail { ($($t:tt)*) => { return Err(format!($($t)*)) } }
 type R<T> = std::result::Result<T, String>;
 
 struct Ex { s: String, ty: Ty, m: bool, untyped_lit: bool }
 fn ex(s: String, ty: Ty, m: bool) -> Ex { Ex { s, ty, m, untyped_lit: false } }
+/// type ascription of an untyped literal expression; `⟪T⟫` marks inner literals that take the same type
+fn ann(s: &str, ty: &Ty) -> String { format!("({} : {})", s.replace("⟪T⟫", &ty.lean()), ty.lean()) }
 
 impl<'a> FnCtx<'a> {
     fn fresh(&mut self) -> String { self.tmp += 1; format!("t__{}", self.tmp) }
@@ -192,6 +212,7 @@ impl<'a> FnCtx<'a> {
                 if let Some(t) = env.get(&s) { return Ok(ex(env.lean(&s), t.clone(), false)); }
                 if let Some(v) = s.strip_prefix("RoundingMode::") { return Ok(ex(format!("RoundingMode.{}", v), Ty::RMode, false)); }
                 if let Some(v) = s.strip_prefix("Ordering::") { let l = match v { "Less" => "lt", "Equal" => "eq", "Greater" => "gt", _ => bail!("Ordering variant") }; return Ok(ex(format!("Ordering.{}", l), Ty::Ord, false)); }
+                if s == "None" && self.ret == Ty::Opt128 { return Ok(ex("(none : Option U128)".into(), Ty::Opt128, false)); }
                 if s == "None" { return Ok(ex("(none : Option Ordering)".into(), Ty::OptOrd, false)); }
                 if let Some(v) = s.strip_prefix("ClassTypes::") { return Ok(ex(format!("ClassTypes.{}", v), Ty::Class, false)); }
                 match s.as_str() {
@@ -207,6 +228,12 @@ impl<'a> FnCtx<'a> {
                 if let Some((ty, _)) = self.cx.consts.get(&s).cloned() {
                     if !self.cx.used_consts.contains(&s) { self.cx.used_consts.push(s.clone()); }
                     return Ok(ex(format!("c_{}", cname), ty, false));
+                }
+                // a whitelisted function passed as a value (`&return_bid128_zero` for a `&dyn Fn` parameter)
+                if let Some(sig) = self.cx.sigs.get(&s) {
+                    if sig.params.iter().all(|p| !p.2) && sig.ret != Ty::Unit {
+                        return Ok(ex(fn_name(&s), Ty::Func(sig.params.iter().map(|p| p.1.clone()).collect(), Box::new(sig.ret.clone())), false));
+                    }
                 }
                 bail!("unknown name {}", s)
             }
@@ -319,8 +346,8 @@ impl<'a> FnCtx<'a> {
                     let (mut l, mut r) = (l, r);
                     let shiftop = matches!(b.op, BinOp::Shl(_) | BinOp::Shr(_));
                     if !shiftop {
-                        if l.untyped_lit && !r.untyped_lit && r.ty.is_int() { l = Ex { s: format!("({} : {})", l.s, r.ty.lean()), ty: r.ty.clone(), m: false, untyped_lit: false }; }
-                        if r.untyped_lit && !l.untyped_lit && l.ty.is_int() { r = Ex { s: format!("({} : {})", r.s, l.ty.lean()), ty: l.ty.clone(), m: false, untyped_lit: false }; }
+                        if l.untyped_lit && !r.untyped_lit && r.ty.is_int() { l = Ex { s: ann(&l.s, &r.ty), ty: r.ty.clone(), m: false, untyped_lit: false }; }
+                        if r.untyped_lit && !l.untyped_lit && l.ty.is_int() { r = Ex { s: ann(&r.s, &l.ty), ty: l.ty.clone(), m: false, untyped_lit: false }; }
                     }
                     (l, r)
                 };
@@ -340,6 +367,7 @@ impl<'a> FnCtx<'a> {
                     BinOp::BitXor(_) => if l.ty == Ty::Bool { Ok(ex(format!("({} != {})", l.s, r.s), Ty::Bool, m)) } else { arith("^^^") },
                     BinOp::Shl(_) | BinOp::Shr(_) => {
                         let op = if matches!(b.op, BinOp::Shl(_)) { "<<<" } else { ">>>" };
+                        if self.ext && l.untyped_lit && r.untyped_lit { return Ok(Ex { s: format!("({} {} ({} : ⟪T⟫))", l.s, op, r.s), ty: Ty::Unknown, m, untyped_lit: true }); }
                         if !l.ty.is_int() { bail!("shift of {:?}", l.ty) }
                         let amt = if r.untyped_lit { r.s.clone() } else { self.cast(&r, &l.ty)? };
                         Ok(ex(format!("({} {} {})", l.s, op, amt), l.ty.clone(), m))
@@ -363,12 +391,22 @@ impl<'a> FnCtx<'a> {
                 }
                 if f == "Some" {
                     let a = self.expr(&c.args[0], env)?;
+                    if a.ty == Ty::W(128) { return Ok(ex(format!("(some {})", paren(&a.s)), Ty::Opt128, a.m)); }
                     if a.ty != Ty::Ord { bail!("Some of {:?}", a.ty) }
                     return Ok(ex(format!("(some {})", a.s), Ty::OptOrd, a.m));
                 }
                 if f == "RoundingMode::from" {
                     let a = self.expr(&c.args[0], env)?; let a_s = self.cast(&a, &Ty::U32)?;
                     return Ok(ex(format!("(← RoundingMode.fromU32 {})", paren(&a_s)), Ty::RMode, true));
+                }
+                if let Some(Ty::Func(ptys, ret)) = env.get(&f).cloned() {
+                    if ptys.len() != c.args.len() { bail!("arity of {}", f) }
+                    let mut args = Vec::new();
+                    for (a, pt) in c.args.iter().zip(ptys.iter()) {
+                        let x = self.expr(a, env)?;
+                        args.push(if x.untyped_lit { ann(&x.s, &pt) } else { paren(&x.s) });
+                    }
+                    return Ok(ex(format!("(← {} {})", env.lean(&f), args.join(" ")), *ret, true));
                 }
                 let sig = match self.cx.sigs.get(&f) { Some(s) => s, None => bail!("call of {} (not whitelisted)", f) };
                 if sig.params.iter().any(|p| p.2) {
@@ -383,7 +421,7 @@ impl<'a> FnCtx<'a> {
                 let mut args = Vec::new();
                 for (a, pt) in c.args.iter().zip(ptys.iter()) {
                     let x = self.expr(a, env)?;
-                    args.push(if x.untyped_lit { format!("({} : {})", x.s, pt.lean()) } else { paren(&x.s) });
+                    args.push(if x.untyped_lit { ann(&x.s, &pt) } else { paren(&x.s) });
                 }
                 Ok(ex(format!("(← {} {})", fn_name(&f), args.join(" ")), ret, true))
             }
@@ -391,6 +429,19 @@ impl<'a> FnCtx<'a> {
                 let m = mc.method.to_string();
                 if m == "clone" && mc.args.is_empty() { return self.expr(&mc.receiver, env); }
                 if m == "count" { return self.count_while(mc, env); }
+                if (m == "is_some" || m == "is_none" || m == "unwrap") && mc.args.is_empty() {
+                    let save = self.pre.len();
+                    if let Ok(x) = self.expr(&mc.receiver, env) {
+                        if x.ty == Ty::Opt128 {
+                            return Ok(match m.as_str() {
+                                "is_some" => ex(format!("{}.isSome", paren(&x.s)), Ty::Bool, x.m),
+                                "is_none" => ex(format!("{}.isNone", paren(&x.s)), Ty::Bool, x.m),
+                                _ => ex(format!("(← (match {} with | some v__ => pure v__ | none => throw \"unwrap of None\"))", x.s), Ty::W(128), true),
+                            });
+                        }
+                    }
+                    self.pre.truncate(save);
+                }
                 if m == "sqrt" && mc.args.is_empty() { let x = self.expr(&mc.receiver, env)?; if x.ty != Ty::F64U { bail!("sqrt of {:?}", x.ty) } return Ok(ex(format!("(← F64U.sqrt {})", paren(&x.s)), Ty::F64U, true)); }
                 {
                     let save = self.pre.len();
@@ -403,7 +454,7 @@ impl<'a> FnCtx<'a> {
                                 let ptys: Vec<Ty> = sig.params.iter().skip(1).map(|p| p.1.clone()).collect();
                                 if ptys.len() != mc.args.len() { bail!("arity of {}", key) }
                                 let mut args = vec![paren(&recv.s)];
-                                for (a, pt) in mc.args.iter().zip(ptys.iter()) { let x = self.expr(a, env)?; args.push(if x.untyped_lit { format!("({} : {})", x.s, pt.lean()) } else { paren(&x.s) }); }
+                                for (a, pt) in mc.args.iter().zip(ptys.iter()) { let x = self.expr(a, env)?; args.push(if x.untyped_lit { ann(&x.s, &pt) } else { paren(&x.s) }); }
                                 return Ok(ex(format!("(← {} {})", fn_name(&key), args.join(" ")), ret, true));
                             }
                             bail!("method d128::{} (not whitelisted)", m)
@@ -451,7 +502,11 @@ impl<'a> FnCtx<'a> {
                 let ty = if t.ty != Ty::Unknown && !t.untyped_lit { t.ty.clone() } else { f.ty.clone() };
                 if t.m || f.m {
                     Ok(ex(format!("(← (if {} then (do pure {}) else (do pure {})))", c.s, t.s, f.s), ty, true))
-                } else { Ok(Ex { s: format!("(if {} then {} else {})", c.s, t.s, f.s), ty, m: c.m, untyped_lit: false }) }
+                } else {
+                    let lit = self.ext && t.untyped_lit && f.untyped_lit;
+                    if lit { Ok(Ex { s: format!("(if {} then ({} : ⟪T⟫) else ({} : ⟪T⟫))", c.s, t.s, f.s), ty: Ty::Unknown, m: c.m, untyped_lit: true }) }
+                    else { Ok(Ex { s: format!("(if {} then {} else {})", c.s, t.s, f.s), ty, m: c.m, untyped_lit: false }) }
+                }
             }
             Expr::Block(b) => self.block_value(&b.block, env),
             Expr::Macro(m) => {
@@ -539,7 +594,7 @@ impl<'a> FnCtx<'a> {
         let mut args = Vec::new(); let mut backs: Vec<Expr> = Vec::new();
         for (a, (pt, is_mut)) in c.args.iter().zip(ptys.iter()) {
             let x = self.expr(a, env)?;
-            args.push(if x.untyped_lit { format!("({} : {})", x.s, pt.lean()) } else { paren(&x.s) });
+            args.push(if x.untyped_lit { ann(&x.s, &pt) } else { paren(&x.s) });
             if *is_mut { backs.push(strip_ref(a).clone()); }
         }
         let t = self.fresh();
@@ -570,7 +625,7 @@ impl<'a> FnCtx<'a> {
         match tail {
             Tail::No => { self.flush(ind, out); Ok(()) }           // value of an expression statement is dropped
             Tail::Ret => {
-                let vs = if v.untyped_lit { format!("({} : {})", v.s, self.ret.lean()) } else { v.s.clone() };
+                let vs = if v.untyped_lit { ann(&v.s, &self.ret) } else { v.s.clone() };
                 let rt = self.ret_tuple(if self.ret == Ty::Unit { None } else { Some(vs) });
                 self.flush(ind, out);
                 out.lines.push(format!("{}return {}", ind, rt));
@@ -578,7 +633,7 @@ impl<'a> FnCtx<'a> {
             }
             Tail::Into(lhs) => {
                 let tty = self.target_ty(lhs, env);
-                let vs = if v.untyped_lit && tty != Ty::Unknown { format!("({} : {})", v.s, tty.lean()) } else { v.s.clone() };
+                let vs = if v.untyped_lit && tty != Ty::Unknown { ann(&v.s, &tty) } else { v.s.clone() };
                 let st = self.assign_to(lhs, &vs, env)?;
                 self.flush(ind, out);
                 out.lines.push(format!("{}{}", ind, st));
@@ -655,10 +710,17 @@ impl<'a> FnCtx<'a> {
                         return self.stmt_expr(&li.expr, env, ind, out, &Tail::Into(lhs));
                     }
                 }
-                let init = match &l.init {
-                    Some(li) => { let x = self.expr(&li.expr, env)?; if ty == Ty::Unknown && !x.untyped_lit { ty = x.ty.clone(); } if x.untyped_lit && ty != Ty::Unknown { format!("({} : {})", x.s, ty.lean()) } else { x.s } }
+                let mut init = match &l.init {
+                    Some(li) => { let x = self.expr(&li.expr, env)?; if ty == Ty::Unknown && !x.untyped_lit { ty = x.ty.clone(); } if x.untyped_lit && ty != Ty::Unknown { ann(&x.s, &ty) } else { x.s } }
                     None => "default".into(),
                 };
+                if ty == Ty::Unknown && self.ext && self.ret.is_int() {
+                    // `let x1 = if c { 16 } else { 0 }; … x1 + x2 + x3`: an untyped local that only feeds the returned sum
+                    let tail_uses = match self.cx.fns.get(&self.name).and_then(|f| f.block.stmts.last().cloned()) {
+                        Some(Stmt::Expr(te, None)) => quote::quote!(#te).to_string().split(|c: char| !(c.is_alphanumeric() || c == '_')).any(|w| w == name),
+                        _ => false };
+                    if tail_uses { ty = self.ret.clone(); init = ann(&init, &ty); }
+                }
                 if ty == Ty::Unknown { bail!("cannot type local {}", name) }
                 self.flush(ind, out);
                 if let Some(prev) = env.get(&name) {
@@ -735,7 +797,7 @@ impl<'a> FnCtx<'a> {
                         if (base.ty == Ty::F64U && n == "ui64") || (base.ty == Ty::F32U && n == "ui32") {
                             let want = if base.ty == Ty::F64U { Ty::U64 } else { Ty::U32 };
                             let x = self.expr(&a.right, env)?;
-                            let v = if x.untyped_lit { format!("({} : {})", x.s, want.lean()) } else { if x.ty != want { bail!("union store of {:?}", x.ty) } x.s };
+                            let v = if x.untyped_lit { ann(&x.s, &want) } else { if x.ty != want { bail!("union store of {:?}", x.ty) } x.s };
                             let st = self.assign_to(&f.base, &format!("(⟨{}⟩ : {})", v, base.ty.lean()), env)?;
                             self.flush(ind, out);
                             out.lines.push(format!("{}{}", ind, st));
@@ -798,8 +860,8 @@ impl<'a> FnCtx<'a> {
                 }
                 let v = match b.op {
                     BinOp::AddAssign(_) => format!("({} + {})", l.s, r.s), BinOp::SubAssign(_) => format!("({} - {})", l.s, r.s),
-                    BinOp::MulAssign(_) => format!("({} * {})", l.s, r.s), BinOp::DivAssign(_) => format!("({} / {})", l.s, if r.untyped_lit { format!("({} : {})", r.s, l.ty.lean()) } else { r.s.clone() }),
-                    BinOp::RemAssign(_) => format!("({} % {})", l.s, if r.untyped_lit { format!("({} : {})", r.s, l.ty.lean()) } else { r.s.clone() }), BinOp::BitAndAssign(_) => if l.ty == Ty::Bool { format!("({} && {})", l.s, r.s) } else { format!("({} &&& {})", l.s, r.s) },
+                    BinOp::MulAssign(_) => format!("({} * {})", l.s, r.s), BinOp::DivAssign(_) => format!("({} / {})", l.s, if r.untyped_lit { ann(&r.s, &l.ty) } else { r.s.clone() }),
+                    BinOp::RemAssign(_) => format!("({} % {})", l.s, if r.untyped_lit { ann(&r.s, &l.ty) } else { r.s.clone() }), BinOp::BitAndAssign(_) => if l.ty == Ty::Bool { format!("({} && {})", l.s, r.s) } else { format!("({} &&& {})", l.s, r.s) },
                     BinOp::BitOrAssign(_) => if l.ty == Ty::Bool { format!("({} || {})", l.s, r.s) } else { format!("({} ||| {})", l.s, r.s) },
                     BinOp::BitXorAssign(_) => if l.ty == Ty::Bool { format!("({} != {})", l.s, r.s) } else { format!("({} ^^^ {})", l.s, r.s) },
                     BinOp::ShlAssign(_) | BinOp::ShrAssign(_) => { let op = if matches!(b.op, BinOp::ShlAssign(_)) { "<<<" } else { ">>>" }; let amt = if r.untyped_lit { r.s.clone() } else { self.cast(&r, &l.ty)? }; format!("({} {} {})", l.s, op, amt) }
@@ -886,7 +948,7 @@ impl<'a> FnCtx<'a> {
             Expr::MethodCall(mc) if matches!(tail, Tail::No) && self.expr(&mc.receiver, env).map(|r| r.ty == Ty::Hasher).unwrap_or(false) => {
                 let m = mc.method.to_string();
                 let a = self.expr(&mc.args[0], env)?;
-                let a = if a.untyped_lit { let t = match m.as_str() { "write_u8" => Ty::U8, "write_u32" => Ty::U32, "write_i32" => Ty::I32, "write_u64" => Ty::U64, "write_u128" => Ty::N, _ => Ty::Unknown }; Ex { s: format!("({} : {})", a.s, t.lean()), ty: t, m: false, untyped_lit: false } } else { a };
+                let a = if a.untyped_lit { let t = match m.as_str() { "write_u8" => Ty::U8, "write_u32" => Ty::U32, "write_i32" => Ty::I32, "write_u64" => Ty::U64, "write_u128" => Ty::N, _ => Ty::Unknown }; Ex { s: ann(&a.s, &t), ty: t, m: false, untyped_lit: false } } else { a };
                 let bytes = match (m.as_str(), &a.ty) {
                     ("write_u8", Ty::U8) => format!("[{}]", a.s),
                     ("write_u32", Ty::U32) => format!("(leBytes {}.toNat 4)", paren(&a.s)),
@@ -1030,7 +1092,12 @@ fn collect_calls(b: &Block, out: &mut Vec<String>) {
 fn main() {
     let args: Vec<String> = std::env::args().collect();
     let (srcdir, wl, outp) = (&args[1], &args[2], &args[3]);
-    let whitelist: Vec<String> = std::fs::read_to_string(wl).unwrap().lines().map(|l| l.split('#').next().unwrap().trim().to_string()).filter(|l| !l.is_empty()).collect();
+    let read_wl = |p: &String| -> Vec<String> { std::fs::read_to_string(p).unwrap().lines().map(|l| l.split('#').next().unwrap().trim().to_string()).filter(|l| !l.is_empty()).collect() };
+    let first: Vec<String> = read_wl(wl);
+    // optional second whitelist: its routines go to a second module that imports the first (which stays byte-identical)
+    let second: Vec<String> = if args.len() >= 6 { read_wl(&args[4]) } else { vec![] };
+    let ext_set: HashSet<String> = second.iter().cloned().collect();
+    let mut whitelist: Vec<String> = first.clone(); whitelist.extend(second.iter().cloned());
     let mut cx = Ctx { fns: HashMap::new(), sigs: HashMap::new(), consts: HashMap::new(), tables: HashMap::new(), used_consts: vec![], used_tables: HashSet::new(), errors: vec![], new_is_lh: false };
     let mut files: Vec<_> = std::fs::read_dir(srcdir).unwrap().map(|e| e.unwrap().path()).filter(|p| p.extension().map(|e| e == "rs").unwrap_or(false)).collect();
     files.sort();
@@ -1110,10 +1177,15 @@ fn main() {
     let mut seen = HashSet::new();
     for w in &whitelist { visit(w, &cx, &whitelist, &mut seen, &mut order); }
 
-    let mut bodies: Vec<String> = Vec::new();
-    let mut translated: BTreeMap<String, String> = BTreeMap::new();
-    let mut failed: BTreeMap<String, String> = BTreeMap::new();
+    let mut bodies: [Vec<String>; 2] = [Vec::new(), Vec::new()];
+    let mut translated: [BTreeMap<String, String>; 2] = [BTreeMap::new(), BTreeMap::new()];
+    let mut failed: [BTreeMap<String, String>; 2] = [BTreeMap::new(), BTreeMap::new()];
+    let mut n1_consts: Option<usize> = None;
+    let mut tables1: HashSet<String> = HashSet::new();
     for name in &order {
+        let part = if ext_set.contains(name) { 1 } else { 0 };
+        if part == 1 && n1_consts.is_none() { n1_consts = Some(cx.used_consts.len()); tables1 = cx.used_tables.clone(); }
+        if part == 0 && n1_consts.is_some() { eprintln!("translate: {} (first whitelist) depends on the second whitelist", name); std::process::exit(2); }
         let f = cx.fns[name].clone();
         let sig = &cx.sigs[name];
         let outs: Vec<String> = sig.params.iter().filter(|p| p.2).map(|p| p.0.clone()).collect();
@@ -1130,7 +1202,7 @@ fn main() {
         if ret != Ty::Unit { rtys.push(ret.lean()); }
         for (_, t, m) in sig.params.iter() { if *m { rtys.push(t.lean()); } }
         let rty = match rtys.len() { 0 => "Unit".to_string(), 1 => rtys[0].clone(), _ => format!("({})", rtys.join(" × ")) };
-        let mut fc = FnCtx { cx: &mut cx, name: name.clone(), outs, ret: ret.clone(), tmp: 0, pre: vec![], loops: vec![] };
+        let mut fc = FnCtx { cx: &mut cx, name: name.clone(), outs, ret: ret.clone(), tmp: 0, pre: vec![], loops: vec![], ext: ext_set.contains(name) };
         let mut out = Out { lines: Vec::new() };
         let res = fc.stmts(&f.block.stmts, &mut env, "  ", &mut out, &Tail::Ret);
         let needs_final = ret == Ty::Unit;
@@ -1145,57 +1217,70 @@ fn main() {
                 for l in &prologue { let _ = writeln!(s, "{}", l); }
                 for l in &out.lines { let _ = writeln!(s, "{}", l); }
                 if needs_final { let _ = writeln!(s, "  return {}", final_ret); }
-                translated.insert(name.clone(), fn_src.get(name).cloned().unwrap_or_default());
-                bodies.push(s);
+                translated[part].insert(name.clone(), fn_src.get(name).cloned().unwrap_or_default());
+                bodies[part].push(s);
             }
             Err(e) => {
-                failed.insert(name.clone(), e.clone());
+                failed[part].insert(name.clone(), e.clone());
                 // callers of an untranslatable function cannot be translated either
                 cx.sigs.remove(name);
                 cx.errors.push(format!("{}: {}", name, e));
             }
         }
     }
-    // constants (transitively)
-    let mut const_defs: Vec<String> = Vec::new();
+    let n1 = n1_consts.unwrap_or(cx.used_consts.len());
+    if n1_consts.is_none() { tables1 = cx.used_tables.clone(); }
+    // constants (transitively), first for the first module, then what only the second needs
     let mut done: HashSet<String> = HashSet::new();
-    let mut queue: Vec<String> = cx.used_consts.clone();
-    let mut ordered: Vec<(String, String)> = Vec::new();
-    while let Some(c) = queue.pop() {
-        if done.contains(&c) { continue; }
-        let (ty, e) = cx.consts[&c].clone();
-        let before = cx.used_consts.len();
-        let mut fc = FnCtx { cx: &mut cx, name: c.clone(), outs: vec![], ret: Ty::Unit, tmp: 0, pre: vec![], loops: vec![] };
-        let env = Env::default();
-        match fc.expr(&e, &env) {
-            Ok(x) => {
-                let deps: Vec<String> = fc.cx.used_consts[before..].to_vec();
-                let undone: Vec<String> = deps.iter().filter(|d| !done.contains(*d)).cloned().collect();
-                if !undone.is_empty() { queue.push(c.clone()); for d in undone { queue.push(d); } continue; }
-                done.insert(c.clone());
-                ordered.push((c.clone(), format!("def c_{} : {} := {}", c.replace("::", "_"), ty.lean(), x.s)));
+    let mut const_defs: [Vec<String>; 2] = [Vec::new(), Vec::new()];
+    for part in 0..2 {
+        let mut queue: Vec<String> = if part == 0 { cx.used_consts[..n1].to_vec() } else { cx.used_consts[n1..].iter().filter(|c| !done.contains(*c)).cloned().collect() };
+        let mut ordered: Vec<(String, String)> = Vec::new();
+        while let Some(c) = queue.pop() {
+            if done.contains(&c) { continue; }
+            let (ty, e) = cx.consts[&c].clone();
+            let before = cx.used_consts.len();
+            let mut fc = FnCtx { cx: &mut cx, name: c.clone(), outs: vec![], ret: Ty::Unit, tmp: 0, pre: vec![], loops: vec![], ext: false };
+            let env = Env::default();
+            match fc.expr(&e, &env) {
+                Ok(x) => {
+                    let deps: Vec<String> = fc.cx.used_consts[before..].to_vec();
+                    let undone: Vec<String> = deps.iter().filter(|d| !done.contains(*d)).cloned().collect();
+                    if !undone.is_empty() { queue.push(c.clone()); for d in undone { queue.push(d); } continue; }
+                    done.insert(c.clone());
+                    ordered.push((c.clone(), format!("def c_{} : {} := {}", c.replace("::", "_"), ty.lean(), x.s)));
+                }
+                Err(er) => { done.insert(c.clone()); cx.errors.push(format!("const {}: {}", c, er)); }
             }
-            Err(er) => { done.insert(c.clone()); cx.errors.push(format!("const {}: {}", c, er)); }
         }
+        for (_, d) in ordered { const_defs[part].push(d); }
     }
-    for (_, d) in ordered { const_defs.push(d); }
 
-    let mut s = String::new();
-    s.push_str("/- GENERATED by bin/gen_decgen (translate/) from /repo/src/*.rs; do not edit.\n   One def per whitelisted Rust function, statement by statement; see DecModel/RustPrelude.lean. -/\nimport DecModel.RustPrelude\n");
-    let mut tabs: Vec<&String> = cx.used_tables.iter().collect(); tabs.sort();
-    for t in tabs { let _ = writeln!(s, "import DecGen.T_{}", t); }
-    s.push_str("\nset_option linter.unusedVariables false\nset_option maxRecDepth 4096\n\nnamespace Dec.Gen.Code\nopen Dec.Rs\n\n");
-    for d in &const_defs { s.push_str(d); s.push('\n'); }
-    s.push('\n');
-    for b in &bodies { s.push_str(b); s.push('\n'); }
-    s.push_str("/-- the Rust functions translated in this module, with the source file each came from -/\ndef translated : List (String × String) := [\n");
-    s.push_str(&translated.iter().map(|(k, v)| format!("  (\"{}\", \"{}\")", k, v)).collect::<Vec<_>>().join(",\n"));
-    s.push_str("\n]\n\n/-- whitelisted functions the translator could NOT translate (outside its subset), with the reason -/\ndef untranslated : List (String × String) := [\n");
-    s.push_str(&failed.iter().map(|(k, v)| format!("  (\"{}\", \"{}\")", k, v.replace('\\', "\\\\").replace('"', "'").replace('\n', " "))).collect::<Vec<_>>().join(",\n"));
-    s.push_str("\n]\n\nend Dec.Gen.Code\n");
-    let old = std::fs::read_to_string(outp).unwrap_or_default();
-    if old != s { std::fs::write(outp, s).unwrap(); }
-    println!("translate: {} functions translated, {} not translatable, {} constants, {} tables", translated.len(), failed.len(), const_defs.len(), cx.used_tables.len());
+    for part in 0..2 {
+        if part == 1 && args.len() < 6 { break; }
+        let mut s = String::new();
+        if part == 0 {
+            s.push_str("/- GENERATED by bin/gen_decgen (translate/) from /repo/src/*.rs; do not edit.\n   One def per whitelisted Rust function, statement by statement; see DecModel/RustPrelude.lean. -/\nimport DecModel.RustPrelude\n");
+        } else {
+            s.push_str("/- GENERATED by bin/gen_decgen (translate/) from /repo/src/*.rs; do not edit.\n   The routines of the second whitelist (translate/whitelist2.txt), on top of DecGen/Code.lean. -/\nimport DecGen.Code\n");
+        }
+        let mut tabs: Vec<&String> = if part == 0 { tables1.iter().collect() } else { cx.used_tables.iter().filter(|t| !tables1.contains(*t)).collect() }; tabs.sort();
+        for t in tabs { let _ = writeln!(s, "import DecGen.T_{}", t); }
+        let ns = if part == 0 { "Dec.Gen.Code" } else { "Dec.Gen.Code2" };
+        let _ = write!(s, "\nset_option linter.unusedVariables false\nset_option maxRecDepth 4096\n\nnamespace {}\nopen Dec.Rs{}\n\n", ns, if part == 0 { "" } else { " Dec.Gen.Code" });
+        for d in &const_defs[part] { s.push_str(d); s.push('\n'); }
+        s.push('\n');
+        for b in &bodies[part] { s.push_str(b); s.push('\n'); }
+        s.push_str("/-- the Rust functions translated in this module, with the source file each came from -/\ndef translated : List (String × String) := [\n");
+        s.push_str(&translated[part].iter().map(|(k, v)| format!("  (\"{}\", \"{}\")", k, v)).collect::<Vec<_>>().join(",\n"));
+        s.push_str("\n]\n\n/-- whitelisted functions the translator could NOT translate (outside its subset), with the reason -/\ndef untranslated : List (String × String) := [\n");
+        s.push_str(&failed[part].iter().map(|(k, v)| format!("  (\"{}\", \"{}\")", k, v.replace('\\', "\\\\").replace('"', "'").replace('\n', " "))).collect::<Vec<_>>().join(",\n"));
+        let _ = write!(s, "\n]\n\nend {}\n", ns);
+        let outp = if part == 0 { outp } else { &args[5] };
+        let old = std::fs::read_to_string(outp).unwrap_or_default();
+        if old != s { std::fs::write(outp, s).unwrap(); }
+    }
+    println!("translate: {} functions translated, {} not translatable, {} constants, {} tables", translated[0].len() + translated[1].len(), failed[0].len() + failed[1].len(), const_defs[0].len() + const_defs[1].len(), cx.used_tables.len());
     for e in &cx.errors { println!("translate: NOT TRANSLATED {}", e); }
 }
 
